@@ -30,6 +30,16 @@ def make_target(kind):
             def f(x):
                 return x
         return f
+    if kind in ("static_object", "classm_object"):
+        # the decorator is written ABOVE @staticmethod / @classmethod: it is given the descriptor object
+        if kind == "static_object":
+            def f(x):
+                return x
+            return staticmethod(f)
+
+        def g(cls, x):
+            return x
+        return classmethod(g)
     if kind == "class":
         class K:
             def __init__(self, x=None):
@@ -84,6 +94,10 @@ def call_violating(kind, decorated):
             class H:
                 m = property(decorated)
             H().m
+        elif kind in ("static_object", "classm_object"):
+            class H:
+                m = decorated
+            H.m(1)
         elif kind in ("class", "plain_subclass", "dbc_subclass"):
             decorated(1)
         return "ret"
@@ -102,9 +116,11 @@ def table():
     # (falsy / truthy values that are not bool: e.g. os.environ.get("CHECKS") with the variable unset gives None)
     options = {"default": _UNSET, "True": True, "False": False, "SLOW": SLOW, "None": None, "0": 0, "empty_str": "", "1": 1}
     for deco in ("require", "ensure", "snapshot_over_enabled_ensure", "snapshot_over_same_ensure", "snapshot_over_bare", "invariant"):
-        kinds = ["class", "plain_subclass", "dbc_subclass"] if deco == "invariant" else ["function", "method", "static", "classm", "property", "async"]
+        kinds = ["class", "plain_subclass", "dbc_subclass"] if deco == "invariant" else ["function", "method", "static", "classm", "property", "async", "static_object", "classm_object"]
         for opt, val in options.items():
             for kind in kinds:
+                if kind in ("static_object", "classm_object") and deco not in ("require", "ensure", "snapshot_over_bare"):
+                    continue  # (these two apply an ENABLED ensure first)
                 kw = {} if val is _UNSET else {"enabled": val}
                 COUNT["cond"] = COUNT["cap"] = 0
                 row = {"deco": deco, "enabled": opt, "kind": kind}
